@@ -47,6 +47,17 @@ def units(tier):
     add(["S1", "R1", "R1"], 0, close=2)
     add(["S2", "r2"], "sym")
     if not quick:
+        import itertools as _it
+
+        progs = ["S1", "S2", "s2", "L", "R1", "R2", "X", "Y"]
+        for combo in _it.combinations_with_replacement(progs, 3):
+            if not any(p[0] in "SsX" for p in combo) or not any(p[0] in "LRrY" for p in combo):
+                continue
+            add(list(combo), "sym")
+            for c in range(3):
+                if combo[c][0] in "SLR":
+                    add(list(combo), 0, close=c)
+                    add(list(combo), 1, cancel=c)
         add(["S2", "S2", "L", "L"], "sym")
         add(["S2", "S1", "L", "R1"], 0, cancel=2)
         add(["S2", "L", "L"], 0, cancel=1, native=True)
